@@ -131,7 +131,8 @@ def replay_c17(case):
     n = len(case["types"])
     geom = case["geom"]
     cens = []
-    twin_gap = 2.0 ** -6 if case["id"] % 2 else 2.0 ** -11       # displacement of the twin shells of the "dependent" class
+    tight_twins = (case["id"] + case["seed"]) % 2 == 0          # (the quick tier keeps the classes with (id + seed) % 4 == 0)
+    twin_gap = 2.0 ** -11 if tight_twins else 2.0 ** -6           # displacement of the twin shells of the "dependent" class
     for k in range(n):
         if geom == "coincident":
             cens.append([[0, 0]] * 3)
@@ -160,7 +161,7 @@ def replay_c17(case):
         M = 1 if case["contr"] != "generalized" else 2
         lo, hi = (0.1, 10.0) if eri else ((5.0, 50.0) if geom == "farnear" and k == 0 else (0.05, 50.0))
         l = rng.randint(1 if geom == "isosceles" else 0, 2 if eri else 3)
-        if geom == "dependent" and k == 0 and not eri and case["id"] % 2 == 0:
+        if geom == "dependent" and k == 0 and not eri and tight_twins:
             l = rng.choice([2, 3])            # the tight twins carry high Boys orders
         if geom == "isosceles" and k >= 1:
             sh = dict(basis[0], center=cens[k])
